@@ -370,7 +370,20 @@ type runner struct {
 	maxClientPackerHeadroom  zerocopy.Headroom
 	csidC                    uint64 // client session id of the relay's ss2022 client session (seen on the wire)
 	harnessSSID, harnessSPID uint64
+	upPacker, srvPacker      zerocopy.ServerPacker // one server session per case, as one relay session has
+	names                    map[string]netip.Addr // what the owned resolver answers (direct client with domain targets)
+	seq                      uint64
+	seqTunnel                ssudp.Addr
+	downReach                int // 0: the last downlink packet did not reach the relay's client unpacker, 1: it was unpacked there
 }
+
+// stages an uplink packet got through
+const (
+	reachNone = iota
+	reachSrvUnpacked
+	reachCliPacked
+	reachUpstream
+)
 
 type violation struct{ msg string }
 
@@ -407,9 +420,9 @@ func runCase(c *caseCfg) (v string, labels []string) {
 	r.setup()
 	// establish every session with a one-byte packet, then the drawn packets
 	r.stage = "prime"
-	r.uplink(1, true)
-	r.uplink(c.UpLen, false)
-	r.downlink(c.DownLen)
+	r.uplink(r.target, 1, true)
+	r.uplink(r.target, c.UpLen, false)
+	r.downlink(r.source, c.DownLen)
 	return "", nil
 }
 
@@ -430,6 +443,9 @@ func clipStack(b []byte) string {
 func (r *runner) setup() {
 	c := r.c
 	r.target, r.source = c.Target.addr(), c.Source.addr()
+	if r.seqTunnel != (ssudp.Addr{}) {
+		r.target = r.seqTunnel // sequence cases: the direct server's tunnel address comes from the host vocabulary
+	}
 	r.tunnel = r.target // a direct server forwards everything to its configured tunnel address
 	r.relay, r.up = peerAddr(c.RelayFam, 1, 8388), peerAddr(c.UpFam, 2, 8389)
 	r.client, r.nat = peerAddr(c.ClientFam, 3, 50000), peerAddr(c.NatFam, 4, 50001)
@@ -485,11 +501,24 @@ func (r *runner) checkBounds(a *arena, what string, start, length int) {
 func (r *runner) checkClientPack(role *clientRole, target ssudp.Addr, a *arena, payload []byte, payloadStart int,
 	dest netip.AddrPort, ps, pl int, err error) (wire []byte) {
 	cfg := role.cfg
-	budget := role.packBudget(target)
-	need := clientOverhead(cfg, target) + len(payload)
 	if !a.intact() {
 		r.fail("canary", "client packer %s wrote outside the packet buffer", cfg.name())
 	}
+	eff := target
+	if cfg.Proto == pDirect && !target.IsIP() {
+		// a direct client sends to the address the (owned) resolver gives for the name, with the packet's port
+		ip, ok := r.names[target.Domain]
+		if !ok {
+			if err == nil {
+				r.fail("unresolvable-accepted/direct", "target %s does not resolve but PackInPlace returned a packet for %s", target, dest)
+			}
+			r.label("direct-client-resolve-failed")
+			return nil
+		}
+		eff = ssudp.Addr{IP: ip, Port: target.Port}
+	}
+	budget := role.packBudget(eff)
+	need := clientOverhead(cfg, target) + len(payload)
 	if need > budget {
 		if err == nil {
 			r.fail("oversize-accepted/"+protoNames[cfg.Proto], "minimal encoding %d > budget %d (mtu %d) but PackInPlace returned a %d-byte packet", need, budget, role.mtu, pl)
@@ -504,7 +533,7 @@ func (r *runner) checkClientPack(role *clientRole, target ssudp.Addr, a *arena, 
 	if pl > budget {
 		r.fail("over-mtu/"+protoNames[cfg.Proto], "packed %d bytes > budget %d (mtu %d)", pl, budget, role.mtu)
 	}
-	wire = append([]byte(nil), a.buf[ps:ps+pl]...)
+	wire = append([]byte{}, a.buf[ps:ps+pl]...) // never nil: nil means "refused"
 	d, derr := decodeClientWire(cfg, role.keys, wire)
 	if derr != nil {
 		r.fail("wire-undecodable/"+protoNames[cfg.Proto], "harness decoder rejects the packed client packet: %v", derr)
@@ -517,7 +546,7 @@ func (r *runner) checkClientPack(role *clientRole, target ssudp.Addr, a *arena, 
 	}
 	wantDest := role.server
 	if cfg.Proto == pDirect {
-		wantDest = netip.AddrPortFrom(target.IP, target.Port)
+		wantDest = netip.AddrPortFrom(eff.IP, eff.Port)
 	}
 	// the wire cannot carry the IPv4-mapped form, so a direct destination is compared unmapped
 	if netip.AddrPortFrom(dest.Addr().Unmap(), dest.Port()) != netip.AddrPortFrom(wantDest.Addr().Unmap(), wantDest.Port()) {
@@ -553,15 +582,16 @@ func (r *runner) checkPadding(isSS, policy bool, pad, room, pl, need int) {
 }
 
 // uplink sends one payload from the downstream client through the relay to the upstream server.
-func (r *runner) uplink(plen int, prime bool) {
+func (r *runner) uplink(target ssudp.Addr, plen int, prime bool) (reach int) {
 	c := r.c
 	ctx := context.Background()
-	target := r.target
+	slabOff = 0
 	if prime && c.S.Proto != pDirect {
 		target = ssudp.Addr{IP: netip.AddrFrom4([4]byte{192, 0, 2, 1}), Port: 9}
 	}
+	r.seq++
 	payload := make([]byte, plen)
-	ssudp.Fill(payload, c.Seed^uint64(plen)<<1)
+	ssudp.Fill(payload, c.Seed^uint64(plen)<<1^r.seq<<32)
 	done := func(l string) {
 		switch {
 		case prime && !strings.HasPrefix(l, "ok"):
@@ -610,6 +640,7 @@ func (r *runner) uplink(plen int, prime bool) {
 	if got := fromConnAddr(ta); !sameUnmapped(got, target) {
 		r.fail("roundtrip-addr/"+protoNames[c.S.Proto], "target after server unpack %s, want %s", got, target)
 	}
+	reach = reachSrvUnpacked
 	r.stage = "uplink/relay-pack"
 	dest, pks, pkl, err := r.cli.sess.Packer.PackInPlace(ctx, a.buf, ta, ps, pl)
 	w2 := r.checkClientPack(r.cli, target, a, payload, ps, dest, pks, pkl, err)
@@ -617,6 +648,7 @@ func (r *runner) uplink(plen int, prime bool) {
 		done("refused-by-relay-client")
 		return
 	}
+	reach = reachCliPacked
 	if c.C.isSS() {
 		r.csidC = decodeMust(decodeClientWire(c.C, r.cli.keys, w2)).sid
 	}
@@ -648,6 +680,7 @@ func (r *runner) uplink(plen int, prime bool) {
 		}
 	}
 	done("ok")
+	return reachUpstream
 }
 
 func decodeMust(d decoded, err error) decoded {
@@ -682,7 +715,7 @@ func (r *runner) checkServerPack(cfg sideCfg, keys ssudp.Keys, source ssudp.Addr
 	if pl > budget {
 		r.fail("over-mtu/"+protoNames[cfg.Proto]+"-server", "packed %d bytes > budget %d", pl, budget)
 	}
-	wire = append([]byte(nil), a.buf[ps:ps+pl]...)
+	wire = append([]byte{}, a.buf[ps:ps+pl]...) // never nil: nil means "refused"
 	d, derr := decodeServerWire(cfg, keys, wire)
 	if derr != nil {
 		r.fail("wire-undecodable/"+protoNames[cfg.Proto]+"-server", "harness decoder rejects the packed server packet: %v", derr)
@@ -698,12 +731,14 @@ func (r *runner) checkServerPack(cfg sideCfg, keys ssudp.Keys, source ssudp.Addr
 }
 
 // downlink sends one payload from the upstream server through the relay to the downstream client.
-func (r *runner) downlink(plen int) {
+func (r *runner) downlink(source ssudp.Addr, plen int) (ok bool) {
 	c := r.c
-	source := r.source
+	slabOff = 0
+	r.seq++
 	payload := make([]byte, plen)
-	ssudp.Fill(payload, c.Seed^uint64(plen)<<1^0xabcdef)
-	done := func(l string) { r.label("downlink-" + l) }
+	ssudp.Fill(payload, c.Seed^uint64(plen)<<1^0xabcdef^r.seq<<32)
+	r.downReach = 0
+	done := func(l string) { r.label("downlink-" + l); ok = l == "ok" }
 	srcAP := netip.AddrPortFrom(source.IP, source.Port)
 
 	// hop N: the upstream server is a relay whose client side is "direct"
@@ -723,10 +758,13 @@ func (r *runner) downlink(plen int) {
 			return
 		}
 	default:
-		packer, err := r.ups.newPacker()
-		if err != nil {
-			r.fail("harness", "upstream NewPacker: %v", err)
+		if r.upPacker == nil {
+			var err error
+			if r.upPacker, err = r.ups.newPacker(); err != nil {
+				r.fail("harness", "upstream NewPacker: %v", err)
+			}
 		}
+		packer := r.upPacker
 		hopRecv := zerocopy.MaxPacketSizeForAddr(c.UpMTU, netip.IPv4Unspecified())
 		front, a := r.layout(packer.ServerPackerInfo().Headroom, zerocopy.Headroom{}, hopRecv)
 		copy(a.buf[front:], payload)
@@ -748,10 +786,13 @@ func (r *runner) downlink(plen int) {
 		done("datagram-exceeds-relay-recv")
 		return
 	}
-	packer, err := r.srv.newPacker()
-	if err != nil {
-		r.fail("harness", "relay NewPacker: %v", err)
+	if r.srvPacker == nil {
+		var err error
+		if r.srvPacker, err = r.srv.newPacker(); err != nil {
+			r.fail("harness", "relay NewPacker: %v", err)
+		}
 	}
+	packer := r.srvPacker
 	front, a := r.layout(packer.ServerPackerInfo().Headroom, r.cli.sess.Unpacker.ClientUnpackerInfo().Headroom, recvSize)
 	copy(a.buf[front:], w)
 	r.stage = "downlink/relay-unpack"
@@ -766,6 +807,7 @@ func (r *runner) downlink(plen int) {
 	if got := fromAddrPort(psrc); !sameUnmapped(got, source) {
 		r.fail("roundtrip-addr/"+protoNames[c.C.Proto]+"-client", "source after client unpack %s, want %s", got, source)
 	}
+	r.downReach = 1
 	r.stage = "downlink/relay-pack"
 	budget := mtuBudget(c.ServerMTU, r.client.Addr())
 	pks, pkl, err := packer.PackInPlace(a.buf, psrc, ps, pl, zerocopy.MaxPacketSizeForAddr(c.ServerMTU, r.client.Addr()))
@@ -802,6 +844,7 @@ func (r *runner) downlink(plen int) {
 		r.fail("roundtrip-addr/"+protoNames[c.S.Proto]+"-client", "source at the downstream client %s, want %s", got, source.Unmapped())
 	}
 	done("ok")
+	return
 }
 
 var _ = errors.Is
@@ -872,4 +915,10 @@ func recordCase(c *caseCfg, labels []string) {
 		recRelay.Sample(map[string]any{"pair": c.S.name() + ">" + c.C.name(), "server_mtu": c.ServerMTU, "client_mtu": c.ClientMTU,
 			"target": c.Target.addr().String(), "up_len": c.UpLen, "down_len": c.DownLen, "labels": strings.Join(labels, ",")})
 	}
+}
+
+// setupSeq is setup for a sequence case: the owned resolver's table is known to the oracle.
+func (r *runner) setupSeq(s *seqCase) {
+	r.names = s.names
+	r.setup()
 }
